@@ -32,6 +32,10 @@ struct V {
     loop_key: Vec<String>,
     /// the counter variable of the concurrent interner's deserialiser (`let mut next_key = 0`)
     counters: Vec<String>,
+    /// locals bound to the (not yet unwrapped) result of `arena.store_str(..)`
+    stored: Vec<String>,
+    /// boolean locals: name -> squashed defining expression
+    bools: std::collections::HashMap<String, String>,
 }
 
 impl V {
@@ -97,6 +101,21 @@ impl<'ast> Visit<'ast> for V {
             if t == "0" && pi.mutability.is_some() {
                 self.counters.push(name.clone());
             }
+            if t.contains("==") || t.contains("!=") {
+                self.bools.insert(name.clone(), t.clone());
+            }
+            {
+                // `let stored = unsafe { arena.store_str(..) };`
+                let mut e: &Expr = &init.expr;
+                if let Expr::Unsafe(u) = e {
+                    if let Some(syn::Stmt::Expr(inner, None)) = u.block.stmts.last() {
+                        e = inner;
+                    }
+                }
+                if matches!(e, Expr::MethodCall(m) if m.method == "store_str") {
+                    self.stored.push(name.clone());
+                }
+            }
             // `let capacity = { ..; Capacity::new(<input>.len(), bytes) }` (or without the block)
             let mut e: &Expr = &init.expr;
             if let Expr::Block(b) = e {
@@ -113,6 +132,11 @@ impl<'ast> Visit<'ast> for V {
             }
         }
         if let (Pat::Type(pt), Some(init)) = (&l.pat, &l.init) {
+            if let Pat::Ident(pi) = &*pt.pat {
+                if squash(&toks(&*init.expr)) == "0" && pi.mutability.is_some() {
+                    self.counters.push(pi.ident.to_string());
+                }
+            }
             // `let vector: Vec<String> = Vec::deserialize(deserializer)?;`
             if let Pat::Ident(pi) = &*pt.pat {
                 let ty = squash(&toks(&*pt.ty));
@@ -140,26 +164,39 @@ impl<'ast> Visit<'ast> for V {
         let body = squash(&toks(&i.then_branch));
         for c in self.counters.clone() {
             for k in self.loop_key.clone() {
-                let conds = [format!("{k}.into_usize()>={c}"), format!("{c}<={k}.into_usize()")];
-                let bodies = [format!("{{{c}={k}.into_usize()+1;}}"), format!("{{{c}={k}.into_usize()+1}}")];
+                let ku = format!("{k}.into_usize()");
+                let conds = [format!("{ku}>={c}"), format!("{c}<={ku}"), format!("{ku}+1>{c}"), format!("{c}<{ku}+1")];
+                let bodies: Vec<String> = [format!("{c}={ku}+1"), format!("{c}=1+{ku}")].iter().flat_map(|b| [format!("{{{b};}}"), format!("{{{b}}}")]).collect();
                 if conds.contains(&cond) && bodies.contains(&body) && i.else_branch.is_none() {
                     self.push(".counterMax");
                     return;
                 }
             }
         }
-        // the final validation of the concurrent deserialiser: unique strings and dense keys
-        if cond.contains(".len()") && cond.contains("||") {
-            let mut parts: Vec<String> = cond.split("||").map(|p| {
-                let mut s: Vec<&str> = p.split("!=").collect();
+        // the final validation of the concurrent deserialiser: unique strings and dense keys, as
+        // `a != b || c != d`, as `!(a == b && c == d)`, or through a boolean local holding either
+        let mut fc = cond.clone();
+        let mut negated = false;
+        if let Some(inner) = fc.strip_prefix('!') {
+            let inner = inner.strip_prefix('(').and_then(|x| x.strip_suffix(')')).unwrap_or(inner).to_string();
+            fc = inner;
+            negated = true;
+        }
+        if let Some(def) = self.bools.get(&fc) {
+            fc = def.clone();
+        }
+        let (sep, op) = if negated { ("&&", "==") } else { ("||", "!=") };
+        if fc.contains(".len()") && fc.contains(sep) {
+            let mut parts: Vec<String> = fc.split(sep).map(|p| {
+                let mut s: Vec<&str> = p.split(op).collect();
                 s.sort();
-                s.join("!=")
+                s.join("~")
             }).collect();
             parts.sort();
             let known = self.counters.iter().any(|c| {
                 let mut want = vec![
-                    { let mut s = vec!["map.len()".to_string(), "strings.len()".to_string()]; s.sort(); s.join("!=") },
-                    { let mut s = vec![c.clone(), "strings.len()".to_string()]; s.sort(); s.join("!=") },
+                    { let mut s = vec!["map.len()".to_string(), "strings.len()".to_string()]; s.sort(); s.join("~") },
+                    { let mut s = vec![c.clone(), "strings.len()".to_string()]; s.sort(); s.join("~") },
                 ];
                 want.sort();
                 want == parts
@@ -251,7 +288,7 @@ impl<'ast> Visit<'ast> for V {
         let name = m.method.to_string();
         match name.as_str() {
             "store_str" if recv == "arena" => self.push(".store"),
-            "expect" | "unwrap" if matches!(&*m.receiver, Expr::MethodCall(i) if i.method == "store_str") => self.push(".expectStored"),
+            "expect" | "unwrap" if matches!(&*m.receiver, Expr::MethodCall(i) if i.method == "store_str") || self.stored.contains(&recv) => self.push(".expectStored"),
             "hash_one" => self.push(".hashOne"),
             "from_hash" => self.push(".probe"),
             "push" if recv == "strings" => self.push(".stringsPush"),
@@ -294,6 +331,8 @@ fn effects(path: &Path, self_ty_prefix: &str) -> Vec<String> {
                         loop_index: Vec::new(),
                         loop_key: Vec::new(),
                         counters: Vec::new(),
+                        stored: Vec::new(),
+                        bools: Default::default(),
                     };
                     v.visit_block(&f.block);
                     return v.out;
